@@ -182,6 +182,8 @@ package ctfe
 //@ ensures [success-leaves-non-nil] result2 == nil ==> (forall j int :: 0 <= j && j < len(result0.Leaves) ==> result0.Leaves[j] != nil)
 //@ ensures [error-never-200] li.instanceOpts.ErrorMapper == nil && result2 != nil ==> result1 != 200
 //@ ensures [fix-error-500] fix.called && fix.res != nil ==> result1 == 500 && result2 != nil && result0 == nil
+//@ loop 1 step-assert [the-next-leaf-is-looked-at-only-after-this-one-was-restored] fix.called && fix.res == nil
+//@ at fix assert [restores-the-leaf-at-this-position-of-the-reply] fix.leaf == leaf
 //@ ensures [caller-view] result2 == nil ==> result0 != nil && result1 == 200
 //@ modifies nothing
 //@ note modifies nothing: writes only ExtraData of leaves inside the freshly allocated reply
